@@ -137,6 +137,7 @@ class SymRepo(G.Repository):
                                      z3.BitVecSort(W), z3.BoolSort())
         self.rejected = {}       # ref name -> z3 Bool (persistent per job)
         self.conflicts_taken = 0
+        self.no_conflicts = False   # harness assumption: merges never conflict
         self.merge_mask = 0      # fresh atoms created by (conflict-free) merges
         self.differs_taken = 0
         self.log_cut = False     # cut: `git log` (used for message text) -> empty
@@ -448,7 +449,7 @@ class SymRepo(G.Repository):
         c2 = C[red[1]] if len(red) > 1 else zero
         if len(red) > 2:
             raise HarnessError('merge of more than two heads')
-        if self.ctx.decide(self.conflictF(D, c1, c2)):
+        if not self.no_conflicts and self.ctx.decide(self.conflictF(D, c1, c2)):
             self.conflicts_taken += 1
             raise CommandError('CONFLICT (content)')
         u = D
